@@ -106,6 +106,7 @@ struct Operand
     uint64_t constant;
     uint64_t observed;
     int width;  // bytes
+    bool variable{false};  // both operands were variables (a relation between two values, not a constant)
 };
 void arm(std::vector<Operand>* sink);
 void disarm();
